@@ -242,21 +242,37 @@ def install_backup_env(ctx, eng):
         okform = z3.And(digits.len >= 1, v_all(digits, is_ascii_digit, 0, digits.len))
         val = v_decimal(digits)
         n = eng.fresh_int(st, "u64", "parsed")
+        perr = lambda kind: AggV("Result", 1, [OpaqueV("ParseIntError", None, {"kind": kind})], "Err")
         return [Outcome(ok(n), [okform, val <= U64_MAX, n.t == val]),
-                Outcome(AggV("Result", 1, [OpaqueV("ParseIntError")], "Err"), [z3.Not(z3.And(okform, val <= U64_MAX))])]
+                Outcome(perr("PosOverflow"), [okform, val > U64_MAX]),
+                Outcome(perr("InvalidDigit"), [z3.Not(okform)])]
     S(r"^core::str::<impl str>::parse::<u64>$", s_parse)
+    S(r"^(std::num::|core::num::)?ParseIntError::kind$", lambda e, st, c, a, d: Outcome(RefV(Cell(OpaqueV("IntErrorKind", None, {"kind": deref_ref(e, st, a[0]).attrs["kind"]})))))
+
+    def s_iek_eq(eng, st, callee, args, dty):
+        def kind(v):
+            v = deref_ref(eng, st, v)
+            v = deref_ref(eng, st, v)
+            if isinstance(v, OpaqueV) and "kind" in v.attrs:
+                return v.attrs["kind"]
+            if isinstance(v, AggV):
+                return v.vname if isinstance(v.vname, str) else str(v.variant)
+            return re.sub(r".*::", "", getattr(v, "name", "") or repr(v))
+        return Outcome(BoolV(kind(args[0]) == kind(args[1])))
+    S(r"^<(std::num::|core::num::)?IntErrorKind as PartialEq>::eq$", s_iek_eq)
     S(r"^Result::<.*>::ok$", lambda e, st, c, a, d: Outcome(some(a[0].fields[0]) if a[0].vname == "Ok" else none()))
     S(r"^Option::<u64>::unwrap_or$", lambda e, st, c, a, d: Outcome(a[0].fields[0] if a[0].vname == "Some" else a[1]))
 
 
 def _spec(b, c):
-    """reference: c is a numbered backup of b  <=>  c == b ++ ".~" ++ digits ++ "~", digits a decimal number within u64"""
+    """reference: c is a numbered backup of b  <=>  c == b ++ ".~" ++ digits ++ "~" (a number beyond u64 saturates)"""
     rest = c.sub(b.len, c.len - b.len)
     digits = rest.sub(2, rest.len - 3)
     shape = z3.And(v_prefix(b, c), rest.len >= 4, rest.at(0) == 46, rest.at(1) == 126, rest.at(rest.len - 1) == 126,
                    v_all(digits, is_ascii_digit, 0, digits.len))
     num = v_decimal(digits)
-    return z3.And(shape, num <= U64_MAX), num
+    # a decimal number too large for u64 is still a backup (its number counts as u64::MAX: larger than any that can be handed out)
+    return shape, z3.If(num <= U64_MAX, num, U64_MAX)
 
 
 def lemma_is_num_backup(ctx):
@@ -282,7 +298,7 @@ def lemma_is_num_backup(ctx):
             some_n += 1
             ctx.lemma(eng, "C09: only names of the form <base>.~N~ are counted as backups of <base>", p.pc, spec,
                       key="backup:prefix-match", info={"note": "e.g. base 'a', sibling 'a.txt.~5~'"})
-            ctx.lemma(eng, "C09: the recognised backup number is the decimal value of N", p.pc, z3.Implies(spec, r.fields[0].t == num))
+            ctx.lemma(eng, "C09: the recognised backup number is the decimal value of N (saturating at u64::MAX)", p.pc, z3.Implies(spec, r.fields[0].t == num))
         else:
             nonutf = any(e.name == "non-utf8" for e in p.trace)
             whole_name_rejected = nonutf and not eng.valid(p.pc, z3.Not(spec))[0]
@@ -292,7 +308,7 @@ def lemma_is_num_backup(ctx):
                          "the next backup reuses .~1~ and replaces the old version",
                          key="backup:non-utf8-unrecognised")
             else:
-                ctx.lemma(eng, "C09: every sibling named <base>.~N~ (decimal N within u64) is recognised", p.pc, z3.Not(spec))
+                ctx.lemma(eng, "C09: every sibling named <base>.~N~ (any decimal N, also beyond u64) is recognised", p.pc, z3.Not(spec))
     (ctx.passed if some_n else ctx.fail)("witness: some name is recognised", "")
     validate_backup_vectors(ctx)
     ctx.bounds = ("base names of 1..%d and sibling names of 0..%d characters (bounded symbolic strings: one integer per character), any characters but '/' and NUL; "
@@ -355,7 +371,7 @@ def lemma_next_backup_num(ctx):
     for p in paths:
         if p.status == "panic":
             # `current + 1` overflows only when a backup numbered u64::MAX exists: refusing (panic => non-zero exit) is safe
-            ctx.lemma(eng, "C09: next_backup_num refuses (panics) only when a backup numbered u64::MAX already exists", p.pc,
+            ctx.lemma(eng, "C09: next_backup_num refuses (error or panic) only when a backup numbered u64::MAX (or beyond) already exists", p.pc,
                       z3.Or(*[v.t == U64_MAX for v in p.ghost.get("recognised", [])]) if p.ghost.get("recognised") else z3.BoolVal(False))
             continue
         if p.status != "return":
@@ -363,6 +379,10 @@ def lemma_next_backup_num(ctx):
             continue
         if any(is_errev(e) for e in p.trace):
             (ctx.passed if is_err(p.ret) else ctx.fail)("C04/C09: a directory that cannot be listed makes the backup (and the copy) fail", str(trace_names(p)))
+            continue
+        if is_err(p.ret):
+            ctx.lemma(eng, "C09: next_backup_num refuses (error or panic) only when a backup numbered u64::MAX (or beyond) already exists", p.pc,
+                      z3.Or(*[v.t == U64_MAX for v in p.ghost.get("recognised", [])]) if p.ghost.get("recognised") else z3.BoolVal(False))
             continue
         okn += 1
         N = p.ret.fields[0].t
@@ -396,7 +416,11 @@ def lemma_next_backup_num(ctx):
     for p in paths2:
         nums = p.ghost.get("numbers", [])
         if p.status == "panic":
-            ctx.lemma(eng2, "C09: next_backup_num refuses (panics) only when a backup numbered u64::MAX already exists", p.pc,
+            ctx.lemma(eng2, "C09: next_backup_num refuses (error or panic) only when a backup numbered u64::MAX (or beyond) already exists", p.pc,
+                      z3.Or(*[v.t == U64_MAX for v in nums]) if nums else z3.BoolVal(False))
+            continue
+        if p.status == "return" and is_err(p.ret) and not any(is_errev(e) for e in p.trace):
+            ctx.lemma(eng2, "C09: next_backup_num refuses (error or panic) only when a backup numbered u64::MAX (or beyond) already exists", p.pc,
                       z3.Or(*[v.t == U64_MAX for v in nums]) if nums else z3.BoolVal(False))
             continue
         if p.status != "return" or any(is_errev(e) for e in p.trace) or not is_ok(p.ret):
